@@ -206,6 +206,47 @@ func runAggArgs(raw json.RawMessage, seed int64) (res Result) {
 			add(fmt.Sprintf("%s returned (%v, %v): not the documented typed error", c.name, ok, err))
 		}
 	}
+	// TWO faults in one call, at every pair of positions of a list of three: which one is reported first is not fixed by the
+	// documentation, so any outcome documented for ONE of the faults present is accepted (the typed error of either; (false, nil)
+	// only if an identity key is among them) - never true, never an untyped error, never the error of a fault that is not there
+	idpk := w.PK(map[string]int{}, int(seed))
+	type fault struct {
+		name  string
+		apply func(pks []crypto.PublicKey, hs []hash.Hasher, i int)
+		isErr func(error) bool // nil: the documented outcome is (false, nil)
+	}
+	faults := []fault{
+		{"nil hasher", func(_ []crypto.PublicKey, hs []hash.Hasher, i int) { hs[i] = nil }, crypto.IsNilHasherError},
+		{"127-byte hasher", func(_ []crypto.PublicKey, hs []hash.Hasher, i int) { hs[i] = w.Hasher("size127", "m1") }, crypto.IsInvalidHasherSizeError},
+		{"ECDSA key", func(pks []crypto.PublicKey, _ []hash.Hasher, i int) { pks[i] = esk.PublicKey() }, crypto.IsNotBLSKeyError},
+		{"identity key", func(pks []crypto.PublicKey, _ []hash.Hasher, i int) { pks[i] = idpk }, nil},
+	}
+	for a, fa := range faults {
+		for b, fb := range faults {
+			for i := 0; i < 3; i++ {
+				for j := 0; j < 3; j++ {
+					if i == j || (a == b && i > j) {
+						continue
+					}
+					pks := []crypto.PublicKey{pk1, pk2, pk1}
+					hs := []hash.Hasher{h, h, h}
+					fa.apply(pks, hs, i)
+					fb.apply(pks, hs, j)
+					ok, err := crypto.VerifyBLSSignatureManyMessages(pks, sig, [][]byte{m, m, m}, hs)
+					res.Evals++
+					fine := !ok
+					if err == nil {
+						fine = fine && (fa.isErr == nil || fb.isErr == nil)
+					} else {
+						fine = fine && ((fa.isErr != nil && fa.isErr(err)) || (fb.isErr != nil && fb.isErr(err)))
+					}
+					if !fine {
+						add(fmt.Sprintf("ManyMessages with %s at index %d and %s at index %d returned (%v, %v): not an outcome documented for either", fa.name, i, fb.name, j, ok, err))
+					}
+				}
+			}
+		}
+	}
 	return
 }
 
